@@ -11,8 +11,11 @@ sys.dont_write_bytecode = True
 VERIF = os.path.dirname(os.path.dirname(os.path.abspath(__file__)))
 REPO = os.environ.get("OVF_REPO", "/repo")
 GUARD = "ORQUESTA_VERIF"
-WORK = os.path.join(VERIF, ".work")
-EVIDENCE = os.path.join(VERIF, "evidence")
+# OVF_SCRATCH (validation against scratch copies only, never set by registered commands): keep work files and the
+# evidence of such a run out of /verif, so that the committed evidence always describes /repo itself
+_SCRATCH = os.environ.get("OVF_SCRATCH")
+WORK = os.path.join(_SCRATCH, "work") if _SCRATCH else os.path.join(VERIF, ".work")
+EVIDENCE = os.path.join(_SCRATCH, "evidence") if _SCRATCH else os.path.join(VERIF, "evidence")
 
 os.environ.setdefault(GUARD, "1")
 os.environ.setdefault("PYTHONDONTWRITEBYTECODE", "1")
